@@ -676,7 +676,7 @@ func coerceToHashTable(arg Object) (result Object) {
 			if c, ok := e.(List); !ok || len(c) < 2 {
 				coerceNotPossible(ta, "hash-table")
 			} else {
-				ht[c[0]] = c.Cdr()
+				ht[ht.Key(NewScope(), 0, c[0])] = c.Cdr()
 			}
 		}
 		result = ht
